@@ -1,6 +1,8 @@
 import Firebolt.Model.Supervisor
 import Firebolt.Generated.Skeleton
 import Firebolt.Expected.Skeleton
+import Firebolt.Generated.Source
+import Firebolt.Expected.Source
 /-!
 # C18 — A failed source is re-created and restarted; a finished source ends the run
 Theorems about `Model/Supervisor.lean` for every number of consecutive failures.
@@ -111,5 +113,10 @@ theorem order_spelled_out :
 theorem skeleton_superviseSource : Generated.superviseSource = Expected.superviseSource := by rfl
 theorem skeleton_prepareSource : Generated.prepareSource = Expected.prepareSource := by rfl
 theorem skeleton_execute : Generated.execute = Expected.execute := by rfl
+
+
+/-! ### functions the model's assumptions rest on (construction, wiring, surrounding calls) are unchanged -/
+theorem source_withConfig : GeneratedSrc.withConfig = ExpectedSrc.withConfig := by rfl
+theorem source_instantiateSource : GeneratedSrc.instantiateSource = ExpectedSrc.instantiateSource := by rfl
 
 end Firebolt.C18
